@@ -11,6 +11,7 @@ KEYWORDS = set('as break const continue crate else enum extern false fn for if i
 # identifiers the harvest corpus itself supplies (the user's side of the harvest inputs)
 CORPUS_OWN = set('Ty V0 V1 V2 f0 f1 f2 T U N W Zz kk a fmt_m clone_m eq_m cmp_m hash_m conv_m m u8 u16 u32 u64 usize bool str Vec'.split())
 SETS = ['Debug', 'Clone', 'CopyClone', 'PartialEq', 'PartialOrd', 'Ord', 'Hash', 'Default', 'Deref', 'Into']
+ENV_SETS = SETS + ['CopyCloneM', 'EqM', 'OrdM', 'POrdM', 'HashM', 'DebugFlipM', 'DebugOff']
 NEUTRAL = {'ty': 'Ty', 'lt': 'l', 'tp': 'P', 'cp': 'CP', 'f0': 'g0', 'f1': 'g1', 'f2': 'g2', 'v0': 'W0', 'v1': 'W1'}
 
 
@@ -86,13 +87,15 @@ def attrs(s, kind):
         return ['PartialEq', 'PartialOrd'], {2: 'PartialOrd(method(pcmp_same))'}, {}
     if s == 'HashM':
         return ['Hash'], {2: 'Hash(method(hash_any))'}, {}
+    if s == 'CopyCloneM':
+        return ['Copy', 'Clone'], ({1: 'Clone(method(::core::clone::Clone::clone))'} if kind == 'en' else {}), {}
     if s == 'CloneM2':
         return ['Clone'], {0: 'Clone(method(::core::clone::Clone::clone))', 2: 'Clone(method(::core::clone::Clone::clone))'}, {}
     raise ValueError(s)
 
 
 XSETS = ['DebugFlip', 'DebugFlipM', 'DebugOff', 'EqM', 'OrdM', 'POrdM', 'HashM', 'CloneM2']
-BASE = {'DebugFlip': 'Debug', 'DebugFlipM': 'Debug', 'DebugOff': 'Debug', 'EqM': 'PartialEq', 'OrdM': 'Ord', 'POrdM': 'PartialOrd', 'HashM': 'Hash', 'CloneM2': 'Clone'}
+BASE = {'CopyCloneM': 'CopyClone', 'DebugFlip': 'Debug', 'DebugFlipM': 'Debug', 'DebugOff': 'Debug', 'EqM': 'PartialEq', 'OrdM': 'Ord', 'POrdM': 'PartialOrd', 'HashM': 'Hash', 'CloneM2': 'Clone'}
 
 
 def program(s, kind, nm, with_check=True, derive=True):
@@ -219,7 +222,10 @@ def env_program(s, kind, shadow):
             sh += '    pub mod %s {}\n' % n
         else:
             sh += '    #[derive(Clone, Copy)] pub struct %s;\n' % n if n not in ('Clone', 'Copy') else '    pub struct %s;\n' % n
-    helper = '    pub fn fmt_m<X: ::core::fmt::Debug>(v: &X, f: &mut ::core::fmt::Formatter<\'_>) -> ::core::fmt::Result { ::core::fmt::Debug::fmt(v, f) }\n'
+    helper = ('    pub fn fmt_m<X: ::core::fmt::Debug>(v: &X, f: &mut ::core::fmt::Formatter<\'_>) -> ::core::fmt::Result { ::core::fmt::Debug::fmt(v, f) }\n'
+              '    pub fn eq_any<X>(_: &X, _: &X) -> bool { true }\n    pub fn cmp_any<X>(_: &X, _: &X) -> ::core::cmp::Ordering { ::core::cmp::Ordering::Equal }\n'
+              '    pub fn pcmp_same<X>(_: &X, _: &X) -> ::core::option::Option<::core::cmp::Ordering> { ::core::option::Option::Some(::core::cmp::Ordering::Equal) }\n'
+              '    pub fn hash_any<X, Y: ::core::hash::Hasher>(_: &X, _: &mut Y) {}\n')
     src = 'pub mod env {\n%s    use educe::Educe;\n%s%s}\n' % (sh, helper, '\n'.join('    ' + l for l in inner.splitlines()))
     outer = program(s, kind, NEUTRAL, with_check=True)
     chk = outer[outer.index('pub fn check'):].replace('Ty', 'env::Ty')
@@ -255,7 +261,10 @@ def check(v, tier):
                         nm = hostile_names(role, name)
                         jobs.append(('C19|%s|%s|%s|%s' % (role, ident, kind, s), program(s, kind, nm), program(s, kind, nm, derive=False), role, ident))
     # two sibling fields whose names differ by a prefix the templates use for their bindings; tuple-binding names as field names
-    pairs = [(p + 'q', 'q') for p in prefixes] + [('q', p + 'q') for p in prefixes] + [('_0', '__0'), ('__0', '_0'), ('_1', '_0'), ('_0', '_1'), ('__1', '_1')]
+    pdiff = sorted({p2[len(p1):] for p1 in prefixes for p2 in prefixes if p2 != p1 and p2.startswith(p1) and p2[len(p1):].strip('_')})
+    v.notes['binding_prefix_differences'] = pdiff
+    pairs = [(p + 'q', 'q') for p in prefixes] + [('q', p + 'q') for p in prefixes] + [(d + 'q', 'q') for d in pdiff] + [('q', d + 'q') for d in pdiff] + [('_0', '__0'), ('__0', '_0'), ('_1', '_0'), ('_0', '_1'), ('__1', '_1')]
+    pairs = list(dict.fromkeys(pairs))
     for (x, y) in pairs:
         for kind in ('sn', 'en'):
             for s in SETS + XSETS:
@@ -293,7 +302,7 @@ def check(v, tier):
     v.notes['dropped_samples'] = sorted({'%s:%s' % (j[3], j[4]) for j, r in zip(jobs, tres) if r.status != 'ok'})[:40]
     cases = [Case(k, p, {'role': role, 'ident': ident}, expect='accept', run=True, depth=1) for k, p, tw, role, ident in ok_jobs]
     # environments
-    for s in SETS:
+    for s in ENV_SETS:
         for kind in ('sn', 'en'):
             for n in ENV_NAMES + ENV_MODS + sorted(ENV_METHODS):
                 cases.append(Case('C19|env|%s|%s|%s' % (n, kind, s), env_program(s, kind, [n]), {'env': [n], 'set': s}, expect='accept', run=True, depth=1))
@@ -305,10 +314,15 @@ def check(v, tier):
     # #![no_std]: every trait set on every shape in one crate that does not link std
     ns = '#![no_std]\n#![allow(dead_code)]\nuse educe::Educe;\npub fn fmt_m<X: ::core::fmt::Debug>(v: &X, f: &mut ::core::fmt::Formatter<\'_>) -> ::core::fmt::Result { ::core::fmt::Debug::fmt(v, f) }\n'
     ncases = []
-    for s in SETS:
+    for s in SETS + ['CopyCloneM', 'DebugFlipM', 'DebugOff']:
         for kind in ('sn', 'st', 'en'):
             body = program(s, kind, NEUTRAL, with_check=False)
             ncases.append(Case('C19|no_std|%s|%s' % (kind, s), body, {'env': 'no_std', 'set': s}, expect='accept', run=False, depth=1))
+    for ts in ('Debug(unsafe)', 'Debug(unsafe, name = false)', 'PartialEq(unsafe), Eq', 'Hash(unsafe)', 'Copy, Clone', 'Default', 'Debug(unsafe), PartialEq(unsafe), Eq, Hash(unsafe), Copy, Clone, Default'):
+        for decl in ('pub union Ty { #[educe(Default)] pub a: u8, pub b: u32 }', "pub union Ty<'l, P: ::core::marker::Copy, const CP: usize> { #[educe(Default)] pub a: [u8; CP], pub b: P, pub c: &'l u8 }"):
+            if 'Default' not in ts:
+                decl = decl.replace('#[educe(Default)] ', '')
+            ncases.append(Case('C19|no_std|union|%s|%d' % (ts, len(decl)), '#[derive(Educe)]\n#[educe(%s)]\n%s\n' % (ts, decl), {'env': 'no_std', 'set': ts}, expect='accept', run=False, depth=1))
     nres = rt_run(ncases, run=False, name='C19ns', shard_size=1000, prelude='#![no_std]\n#![allow(dead_code)]\npub mod sup { pub fn fmt_m<X: ::core::fmt::Debug>(v: &X, f: &mut ::core::fmt::Formatter<\'_>) -> ::core::fmt::Result { ::core::fmt::Debug::fmt(v, f) } }\n')
     v.add_states(ncases)
     for r in nres:
